@@ -109,7 +109,7 @@ static void overlap_len(long L)
         cons_keys(C, &kc, kbuf, PAT_R2, (int) len);
         C->enc(dis, &ol, m, len, NULL, 0, nonce, &kc);                                  /* disjoint reference: tag || c */
         for (oi = 0; oi < NOFFS; oi++) { off = OFFS[oi]; if (far_res >= 0 && oi % 8 != far_res) continue;
-            unsigned char *base = arena + 1024, *in = base, *out = base + off; int r;
+            unsigned char *base = arena + 1300, *in = base, *out = base + off; int r;
             /* easy: out = in + off */
             memcpy(in, m, len); r = C->enc(out, &ol, in, len, NULL, 0, nonce, &kc); n_eval++; n_nontriv++;
             if (len == 96 && (off == -47 || off == 33)) VF_SAMPLE_CASE(4, "%s easy form, len=%zu, output starts %d bytes %s the message: result %s... must equal the disjoint-buffer result", C->name, len, off < 0 ? -off : off, off < 0 ? "below" : "above", vf_hex(out, 24));
@@ -146,7 +146,7 @@ static void overlap_len(long L)
     /* crypto_sign / crypto_sign_open */
     { ull sl; crypto_sign(dis, &sl, m, len, skA);
       for (oi = 0; oi < NOFFS; oi++) { off = OFFS[oi]; if (far_res >= 0 && oi % 8 != far_res) continue;
-          unsigned char *base = arena + 1024, *in = base, *out = base + off; ull ol = 0; int r;
+          unsigned char *base = arena + 1300, *in = base, *out = base + off; ull ol = 0; int r;
           memcpy(in, m, len); r = crypto_sign(out, &ol, in, len, skA); n_eval++; n_nontriv++;
           if (r != 0 || ol != len + 64 || memcmp(out, dis, len + 64)) { snprintf(k, sizeof k, "crypto_sign/overlap/len=%zu/off=%d", len, off); vf_fail(k, "overlapping signed message differs from the disjoint result"); }
           memcpy(in, dis, len + 64); ol = 0; r = crypto_sign_open(out, &ol, in, len + 64, pkA); n_eval++; n_nontriv++;
